@@ -212,8 +212,8 @@ func (h *hist) runKyber(maxWait time.Duration) {
 	deadline := time.Now().Add(maxWait)
 	pending := map[int]bool{}
 	for i, n := range h.w.nodes {
-		sp := mustSnapshot(n)
-		if sp.raw.cur.State == dkg.Executing {
+		// the state as of the node's last recorded step: a fast run may already have completed
+		if n.last().raw.cur.State == dkg.Executing {
 			pending[i] = true
 		}
 	}
